@@ -192,6 +192,44 @@ impl TlSpec {
     pub fn plain(cycle: f32) -> Self {
         TlSpec { cycle, delay: 0.0, repeat: Rep::None, reverse: false, default_easing: None, kfs: vec![] }
     }
+    /// Is the cycle a power of two (the dyadic exact regime of DESIGN §3.2)?
+    pub fn dyadic_cycle(&self) -> bool {
+        self.cycle > 0.0 && (self.cycle.to_bits() & 0x007f_ffff) == 0
+    }
+    /// Is `t` an instant at which every f32 intermediate of the time-to-position mapping is exact (so that the
+    /// implementation's position equals M-scale's bit for bit)? Before the delay and well after the end: always. In
+    /// between: `t - delay` must be exact and, unless the cycle is a power of two, so must the cycle fraction.
+    pub fn exact_at(&self, t: f32) -> bool {
+        let (c, d) = (self.cycle as f64, self.delay as f64);
+        let e = t as f64 - d;
+        if e < 0.0 {
+            return true; // the sign of a difference of two floats is never lost
+        }
+        let total = self.repeat.cycles().map(|n| c * n as f64);
+        if let Some(total) = total {
+            if e > total * (1.0 + 1e-6) + c * 1e-6 {
+                return true; // well after the end
+            }
+        }
+        if ((t - self.delay) as f64) != e {
+            return false;
+        }
+        if let Some(total) = total {
+            if (total as f32) as f64 != total {
+                return false;
+            }
+            if e > total {
+                return true;
+            }
+        }
+        if self.dyadic_cycle() {
+            return true; // remainder and quotient by a power of two are exact
+        }
+        let k = (e / c).floor();
+        let r = e - k * c;
+        let rho = r / c;
+        (rho as f32) as f64 == rho && ((1.0 - rho) as f32) as f64 == 1.0 - rho && rho * c == r
+    }
     pub fn total(&self) -> f64 {
         match self.repeat.cycles() {
             Some(n) => self.delay as f64 + self.cycle as f64 * n as f64,
@@ -356,6 +394,15 @@ pub fn gen_timing_exact(r: &mut Rng) -> (f32, f32, Rep, bool) {
         Rep::Infinite,
         Rep::Times(1000),
     ]);
+    // one timing in six: a cycle that is not a power of two (integers such as 3, 41, 97 s, or 0.75, 12.5 s). The
+    // instants delay + cycle x (k + j/2^m) are still exact there — the remainder is exact and the correctly rounded
+    // quotient of an exact multiple is the multiple — but reciprocals, products and quotients of the cycle are not
+    // (checks with a model-based oracle judge only the instants whose position is exact, `TlSpec::exact_at`)
+    let cycle = if r.chance(1, 6) {
+        *r.pick(&[3.0f32, 5.0, 6.0, 7.0, 10.0, 41.0, 47.0, 55.0, 61.0, 83.0, 97.0, 100.0, 0.75, 1.5, 12.5, 0.375, 24.0, 60.0])
+    } else {
+        cycle
+    };
     (cycle, delay, repeat, r.chance(1, 3))
 }
 
